@@ -84,6 +84,26 @@ Theorem Whole_dispatch_is_pipeline :
 Proof. exact dispatch_agree. Qed.
 Print Assumptions Whole_dispatch_is_pipeline.
 
+(* ... and the write phase: Dispatch's one write event per package (EWrites pid ws: "the files of these generators are
+   written", after every callback) names exactly the generators whose destinations the pipeline opens (ETruncate, in the
+   order of the sync.Map: a permutation). *)
+Theorem Whole_dispatch_writes_are_pipeline_writes :
+  forall fmt order rank G wps fuel gens a wp,
+    NoDup (map wp_path wps) -> (forall src, fmt src <> None) -> (forall p l, Permutation (order p l) l) ->
+    In wp wps -> (forall g, In g gens -> fuel_ok G fuel wp g) ->
+    let E := whole_env fmt order rank G in
+    let gs := map (disp_gen wps fuel) gens in
+    snd (pkg_effects E a gs (to_pkginfo wp)) = Done ->
+    exists devs ws,
+      Dispatch.pkg_execute Dispatch.fixed_all (wp_d wp) gens G
+      = Ok (devs ++ (if is_nil ws then [] else [Dispatch.EWrites (Dispatch.pk_id (wp_d wp)) ws]), Dispatch.Done)
+      /\ ws = map Dispatch.g_idx (filter (renders_on fmt order rank G wps fuel wp) gens)
+      /\ Permutation (truncated (fst (fst (pkg_effects E a gs (to_pkginfo wp)))))
+                     (map (fun g => gen_file a (to_pkginfo wp) (Dispatch.g_name g))
+                          (filter (renders_on fmt order rank G wps fuel wp) gens)).
+Proof. exact dispatch_writes_agree. Qed.
+Print Assumptions Whole_dispatch_writes_are_pipeline_writes.
+
 (* ---- 1c. Determinism (C04) and Pipeline: gengo.Execute end to end read twice ----
    From the pipeline's input Model/WholeDet.v derives Determinism's (its world: Defs = the type table, one file of
    package tags, no methods; its generators: the pipeline's state machines folded over the call list; render = the
